@@ -48,3 +48,33 @@ Theorem C17_tokenizer_cits_sorted : forall text nominative cands,
   StronglySorted (fun a b => (fst a < fst b)%nat) (snd (tokenize text nominative cands)).
 Proof. exact tokenize_cits_sorted. Qed.
 Print Assumptions C17_tokenizer_cits_sorted.
+(* ---- closed model (Model/E2EClosed.v): get_citations as a function of the text and the current year,
+   every candidate, token, metadata search and reference match computed inside the model from the tables
+   regenerated from /repo.  The hypotheses about candidates, token stream, reference matches (and, by the
+   kernel's run over the live extractor table, about stop-word groups, edition sources and non-empty
+   tokens) are DISCHARGED; what is left are facts about the nine metadata regexes and the short-form
+   extractor regexes on the text at hand, which the harness checks on every recorded call / token ---- *)
+From EV Require Import Model.SearchEngine Model.Extract Model.E2E Model.RefEngine Model.E2EClosed Proofs.ClosedProofs Proofs.ClosedCorollaries.
+
+Theorem C17_closed_metadata : forall this_year s l,
+  s <> s_eyecite -> short_page_ok s ->
+  search_ok (engine_search Gen.Unicode.U meta_table) -> defyear_ok (engine_search Gen.Unicode.U meta_table) ->
+  get_citations_closed this_year s false = Ok l ->
+  Forall (meta_ok s l) l.
+Proof. exact closed_metadata'. Qed.
+Print Assumptions C17_closed_metadata.
+
+Theorem C17_closed_metadata_any_option : forall this_year s ra l,
+  s <> s_eyecite -> short_page_ok s ->
+  search_ok (engine_search Gen.Unicode.U meta_table) -> defyear_ok (engine_search Gen.Unicode.U meta_table) ->
+  get_citations_closed this_year s ra = Ok l ->
+  exists l0, get_citations_closed this_year s false = Ok l0 /\
+             (forall c, In c l -> In c l0) /\ Forall (meta_ok s l0) l.
+Proof. exact closed_metadata_ra'. Qed.
+Print Assumptions C17_closed_metadata_any_option.
+
+(* every special token of the computed stream is non-empty (group 1 of every live extractor pattern has
+   a positive minimum length: kernel-run analysis + "a capture is a match of its group's body") *)
+Theorem C17_closed_tokens_nonempty : forall s, cits_nonempty (snd (tokenize_text s)).
+Proof. exact tokenize_text_cits_nonempty_all. Qed.
+Print Assumptions C17_closed_tokens_nonempty.
